@@ -10,3 +10,4 @@ import BalmProofs.Props.C05
 #print axioms Balm.Impl.symbolicSeeds_spec
 #print axioms Balm.Impl.nodeSeeds_spec
 #print axioms Balm.Impl.reaches_attr
+#print axioms Balm.Impl.judgeWeak_sound
